@@ -102,6 +102,10 @@ def name_of_operand(b, o, depth=0):
         return None
     bi, si, r = d
     if si == "t":
+        # Arc / Box / reference plumbing: the name of what is dereferenced or cloned
+        cn = callee_names(r)
+        if cn and cn[-1].rsplit("::", 1)[-1] in ("deref", "deref_mut", "as_ref", "as_mut", "clone", "borrow") and r["args"] and r["args"][0]["k"] != "const":
+            return name_of_operand(b, r["args"][0], depth + 1)
         return None
     if r["k"] == "use":
         return name_of_operand(b, r["o"], depth + 1)
